@@ -19,7 +19,7 @@ sys.path.insert(0, HERE)
 import lib  # noqa: E402
 from lib import MachineryError, VERIF, log  # noqa: E402
 
-EVID = os.path.join(VERIF, 'evidence')
+EVID = os.environ.get('VERIF_EVIDENCE_DIR') or os.path.join(VERIF, 'evidence')     # (selftest runs against modified copies write elsewhere)
 REPLAYS = os.path.join(VERIF, 'replays')
 KNOWN = os.path.join(VERIF, 'known_findings.json')
 
